@@ -383,4 +383,8 @@ func extractBufioWriterBuf(bw *bufio.Writer, w io.Writer) []byte {
 
 func (c *Conn) writeError(code StatusCode, err error) {
 	c.writeClose(code, err.Error())
+	// The connection failed: nothing that follows on the transport may be processed.
+	// See https://tools.ietf.org/html/rfc6455#section-7.1.7
+	// The owner of readMu releases the read resources once it unlocks.
+	c.closeTransport()
 }
